@@ -2,9 +2,9 @@ package stableconc
 
 import (
 	"bytes"
-	"strings"
 	"fmt"
 	"sort"
+	"strings"
 	"sync"
 	"testing"
 
@@ -48,7 +48,9 @@ func replaceImport(s, from, to string) string {
 	return s
 }
 
-func replaceAll(s, a, b string) string { return string(bytes.ReplaceAll([]byte(s), []byte(a), []byte(b))) }
+func replaceAll(s, a, b string) string {
+	return string(bytes.ReplaceAll([]byte(s), []byte(a), []byte(b)))
+}
 
 func TestC05(t *testing.T) {
 	r := vlib.Start(t, "C05")
